@@ -3,6 +3,8 @@ package nbt
 import (
 	"io"
 	"net"
+	"runtime"
+	"sync"
 	"time"
 )
 
@@ -187,6 +189,52 @@ func H_C11_two_sends() {
 		if r1 == nil && r2 == nil {
 			vCheck(vBytesEq(g1, pa) && vBytesEq(g2, pb), "sends/received-equal-sent")
 		}
+	}
+	vCover("end")
+}
+
+// yieldConn is a connection on which the sender is preempted after every Write call (the point where the operating system
+// serialises writers on a real socket): another goroutine's Write may come next on the wire.
+type yieldConn struct{ scriptConn }
+
+func (c *yieldConn) Write(p []byte) (int, error) {
+	n, err := c.scriptConn.Write(p)
+	runtime.Gosched()
+	return n, err
+}
+
+// Two goroutines send over one transport (one schedule: each sender is preempted at every Write). The peer receives two
+// messages, each exactly one of the two payloads: frames of different senders are never spliced.
+func H_C11_concurrent_sends() {
+	runtime.GOMAXPROCS(1)
+	a, b := vParam("a"), vParam("b")
+	pa, pb := make([]byte, a), make([]byte, b)
+	if a > 0 {
+		pa[0], pa[a-1] = vU8("a.first"), vU8("a.last")
+	}
+	if b > 0 {
+		pb[0], pb[b-1] = vU8("b.first"), vU8("b.last")
+	}
+	c := &yieldConn{}
+	n := &NBTTransport{conn: c}
+	var wg sync.WaitGroup
+	wg.Add(2)
+	go func() {
+		n.Send(pa)
+		wg.Done()
+	}()
+	go func() {
+		n.Send(pb)
+		wg.Done()
+	}()
+	wg.Wait()
+	vCheck(len(c.out) == 8+a+b, "concurrent-sends/two-frames-on-the-wire")
+	r := &NBTTransport{conn: &scriptConn{in: c.out}}
+	g1, r1 := r.Receive()
+	g2, r2 := r.Receive()
+	vCheck(r1 == nil && r2 == nil, "concurrent-sends/both-received")
+	if r1 == nil && r2 == nil {
+		vCheck(vOr(vAnd(vBytesEq(g1, pa), vBytesEq(g2, pb)), vAnd(vBytesEq(g1, pb), vBytesEq(g2, pa))), "concurrent-sends/each-message-is-one-of-the-payloads")
 	}
 	vCover("end")
 }
